@@ -69,6 +69,15 @@ def adjoint_identity(c, backing, dom, rng, m, n):
     if np.shape(Mx) == (m, n) and np.shape(TM) == (n, m):
         c.eq('T_matrix_is_transpose', TM, Mx.T)
     c.eq('matmul_is_forward', model @ x, Fx)
+    # a collection of vectors goes through the same maps column by column (forward and adjoint)
+    from cuqi.samples import Samples
+    X = c.vec('X', 2 * n).reshape(n, 2); Y = c.vec('Y', 2 * m).reshape(m, 2)
+    FS = model.forward(Samples(X, model.domain_geometry)); AS = model.adjoint(Samples(Y, model.range_geometry))
+    c.holds('forward_of_samples_is_samples_on_the_range_geometry', isinstance(FS, Samples) and FS.geometry == model.range_geometry and np.shape(FS.samples) == (m, 2), note=str(np.shape(getattr(FS, 'samples', FS))))
+    c.holds('adjoint_of_samples_is_samples_on_the_domain_geometry', isinstance(AS, Samples) and AS.geometry == model.domain_geometry and np.shape(AS.samples) == (n, 2), note=str(np.shape(getattr(AS, 'samples', AS))))
+    for k in range(2):
+        c.eq(f'forward_of_samples_column[{k}]_is_forward_of_that_vector', FS.samples[:, k], model.forward(X[:, k]))
+        c.eq(f'adjoint_of_samples_column[{k}]_is_adjoint_of_that_vector', AS.samples[:, k], model.adjoint(Y[:, k]))
 
 
 def view_models(c, kind, n=4):
